@@ -24,23 +24,23 @@ func init() {
 		Run:    runC18,
 		Replay: replayC18,
 		MinExercised: map[string]int64{
-			"string.iso": 500, "parse.roundtrip": 500, "json.roundtrip": 500, "path.string": 500, "unmarshal.total": 500, "tz.commute": 200,
+			"string.iso": 500, "parse.roundtrip": 500, "json.roundtrip": 500, "path.string": 500, "unmarshal.bytes": 1000, "unmarshal.total": 500, "tz.commute": 200,
 		},
 		Assumptions: []string{
 			"equality of datetime values = same Go type, same instant, same zone offset",
-			"UnmarshalJSON is driven with syntactically valid JSON values only (the json.Unmarshaler contract), directly and through json.Unmarshal",
+			"accept/reject of UnmarshalJSON is judged on syntactically valid JSON values only (the json.Unmarshaler contract), directly and through json.Unmarshal; raw byte strings that are not JSON are passed directly too, but only 'returns instead of panicking' is asserted for them",
 			"for JSON null either an error or a no-op is accepted",
 		},
 	})
 }
 
 type dtVal struct {
-	typ          string // date time timetz timestamp timestamptz
-	y, mo, d     int
-	hh, mi, ss   int
-	ns           int
-	off          int // seconds, whole minutes
-	v            types.DateTime
+	typ        string // date time timetz timestamp timestamptz
+	y, mo, d   int
+	hh, mi, ss int
+	ns         int
+	off        int // seconds, whole minutes
+	v          types.DateTime
 }
 
 func fracText(ns int) string {
@@ -210,6 +210,19 @@ func checkValueC18(c *h.Ctx, v *dtVal) {
 		} else {
 			c.Held("path.string")
 		}
+		// ... whatever time-zone options the query runs with: a value is
+		// printed with its own offset, not moved into the context zone
+		for zi, zone := range []string{"UTC", "America/New_York", "+05:30", "-08:00"} {
+			if (int(exp[len(exp)-1])+len(exp)+zi)%2 != 0 {
+				continue
+			}
+			oz := h.Call("query", p, exp, h.Opts{TZ: true, Zone: h.ParseZone(zone)})
+			if oz.Class != h.OK || len(oz.Items) != 1 || oz.Items[0] != exp {
+				c.Violate("path.string", feat("method", m, "kind", "with-tz"), fmt.Sprintf("Query($.%s().string(), %q) with WithTZ in zone %s = %s, want [%q]", m, exp, zone, oz.Summary(), exp), v.caseOf())
+			} else {
+				c.Held("path.string")
+			}
+		}
 		p2 := c18Path("$." + m + "().type()")
 		o2 := h.Call("query", p2, exp, h.Opts{})
 		want := map[string]string{"date": "date", "time": "time without time zone", "timetz": "time with time zone",
@@ -239,6 +252,8 @@ func replayC18(c *h.Ctx, cs h.Case) {
 		checkValueC18(c, mkVal(e["type"], y, mo, d, hh, mi, ss, ns, off))
 	case "unmarshal-input":
 		checkUnmarshalC18(c, cs.Extra["type"], caseInput(cs))
+	case "unmarshal-bytes":
+		checkUnmarshalBytesC18(c, cs.Extra["type"], []byte(caseInput(cs)))
 	case "tz-commute":
 		var y, mo, d, hh, mi, ss, ns int
 		e := cs.Extra
@@ -307,6 +322,30 @@ func checkUnmarshalC18(c *h.Ctx, typ, in string) {
 		default:
 			c.Held("unmarshal.total")
 		}
+	}
+}
+
+// checkUnmarshalBytesC18 passes raw bytes (not necessarily JSON) straight to
+// UnmarshalJSON: whatever the answer, the call must return.
+func checkUnmarshalBytesC18(c *h.Ctx, typ string, in []byte) {
+	c.Eval(1)
+	_, um := newOf(typ)
+	pan := ""
+	func() {
+		defer func() {
+			if r := recover(); r != nil {
+				pan = fmt.Sprint(r)
+			}
+		}()
+		_ = um.UnmarshalJSON(in)
+	}()
+	if pan != "" {
+		cs := inputCase(string(in), "")
+		cs.Kind = "unmarshal-bytes"
+		cs.Extra = map[string]string{"type": typ}
+		c.Violate("unmarshal.bytes", h.F("type", typ, "kind", "panic"), fmt.Sprintf("UnmarshalJSON(%q) panicked: %s", in, pan), cs)
+	} else {
+		c.Held("unmarshal.bytes")
 	}
 }
 
@@ -417,13 +456,40 @@ func runC18(c *h.Ctx) {
 		`"1"`, `"\""`, `"\\"`, `"2023-08-15"`, `"12:34:56"`, `"12:34:56+01"`, `"12:34:56+01:00"`, `"12:34:56+01:00:00"`, `"12:34:56Z"`, `"2023-08-15T12:34:56"`,
 		`"2023-08-15T12:34:56Z"`, `"2023-08-15T12:34:56+01"`, `"2023-08-15T12:34:56+01:00"`, `"2023-08-15T12:34:56.123456789-07:00"`, `"2023-08-15 12:34:56"`,
 		`"+"`, `"-"`, `"+1"`, `"-----"`, `"+++++++++"`, `"        +"`, `"12:34:5"`, `"1:2:3"`, `"99:99:99"`, `"2023-13-45"`, `"0000-00-00"`, `"10000-01-01"`, `"-0001-01-01"`,
-`"2023-08-15T12:34:56+01:00:00"`, `"2023-08-15T24:00:00"`, `"é"`, `"😀"`}
+		`"2023-08-15T12:34:56+01:00:00"`, `"2023-08-15T24:00:00"`, `"é"`, `"😀"`}
 	idx := 0
 	for _, typ := range typs {
 		for _, tk := range tokens {
 			idx++
 			if c.Mine(idx) {
 				checkUnmarshalC18(c, typ, tk)
+			}
+		}
+	}
+	// raw bytes handed to UnmarshalJSON directly: nil, every 1- and 2-byte
+	// input over a hostile alphabet, cut-off tokens
+	{
+		hb := []byte{'"', '\\', 'n', 't', '0', '1', '-', '+', ':', ' ', 0, 0x80, 0xff, '[', '{', 'T', 'Z', '.'}
+		var raws [][]byte
+		raws = append(raws, nil, []byte{})
+		for _, a := range hb {
+			raws = append(raws, []byte{a})
+			for _, b := range hb {
+				raws = append(raws, []byte{a, b})
+				raws = append(raws, []byte{'"', a, b}, []byte{a, b, '"'}, []byte{'"', a, b, '"'})
+			}
+		}
+		for _, tk := range tokens {
+			for cut := 0; cut < len(tk); cut++ {
+				raws = append(raws, []byte(tk[:cut]), []byte(tk[cut:]))
+			}
+		}
+		for _, typ := range typs {
+			for _, raw := range raws {
+				idx++
+				if c.Mine(idx) {
+					checkUnmarshalBytesC18(c, typ, raw)
+				}
 			}
 		}
 	}
